@@ -33,7 +33,7 @@ def floors(tier):
             "kind:curated": 300 if q else 5000, "kind:corpus": 40 if q else 200, "with_load_node": 300 if q else 4000,
             "no_dependency": 20 if q else 300, "chain_ge_3": 300 if q else 4000, "leading_load": 30 if q else 400,
             "last_is_most_expensive": 100 if q else 1500, "monitor:get_critical_path": 4000 if q else 55000, "line_number_gaps": 300 if q else 4000,
-            "report_cp_column_checked": 1200 if q else 18000, "store_load_kernels": 80 if q else 1000, "dict_first_checked": 1200 if q else 18000,
+            "report_cp_column_checked": 1200 if q else 18000, "store_load_kernels": 80 if q else 1000, "dict_first_checked": 1200 if q else 18000, "flag_graph_compared": 150 if q else 2500,
             "edge_weights_checked": 8000 if q else 100000}
 
 
@@ -93,6 +93,17 @@ def judge(forms, dg, R, case, frontend=None):
         except Exception as e:  # noqa
             R.exception(e, case, prefix="dict-first/")
     nt = judge_calls(forms, dg, R, case)
+    if case.get("flags"):
+        # flag dependencies were requested: the graph the critical path is taken from must be the one built with them
+        try:
+            g2 = dg.create_DG(list(forms), True)
+            R.count("flag_graph_compared")
+            if set(g2.edges) != set(dg.dg.edges):
+                miss = sorted(set(g2.edges) - set(dg.dg.edges))[:4]
+                R.violation("graph/not-built-with-the-requested-flag-dependencies", "the critical-path graph lacks %d edge(s) that create_DG yields with flag "
+                            "dependencies, e.g. %s" % (len(set(g2.edges) - set(dg.dg.edges)), miss), case)
+        except Exception as e:  # noqa
+            R.exception(e, case, prefix="flag-graph/")
     if first_dict is not None:
         R.count("dict_first_checked")
         cp = dg.get_critical_path()
